@@ -2,7 +2,11 @@
 EXTENDS CifValue
 MCCanonK(k) == CASE k = "e1" -> "e" [] k = "e2" -> "e" [] OTHER -> k
 MCFoldN(n) == CASE n = "_X" -> "_x" [] n = "_Y" -> "_y" [] OTHER -> n
+MCClass(t) == CASE t = "" -> "empty" [] t = "?" -> "unk" [] t = "." -> "na" [] t \in {"12", "1.5(2)", "-3e2"} -> "number"
+                [] t \in {"data_x", "$v", "loop_", "_n"} -> "reserved" [] t \in {"a b", "a[ b"} -> "space" [] t \in {"a[b", "{}"} -> "bracket"
+                [] OTHER -> "plain"
 Slots3 == <<"v1", "v2", "v3">>
+Slots1 == <<"v1">>
 Slots2 == <<"v1", "v2">>
 Refs2 == <<"r1", "r2">>
 Refs1 == <<"r1">>
